@@ -120,15 +120,27 @@ func (ix *aofIndex) match(e expRec) (int, int) {
 	if !ok {
 		return -1, -1
 	}
-	k := e.delCmd + "|" + e.expKey + "|"
-	if e.delCmd == "del" {
-		k += e.id
-	}
-	for _, di := range ix.sweep[k] {
-		if di > si && !ix.used[di] {
-			ix.used[di] = true
-			return si, di
+	best := -1
+	for _, key := range []string{e.expKey, e.altKey} {
+		k := e.delCmd + "|" + key + "|"
+		if e.delCmd == "del" {
+			k += e.id
 		}
+		for _, di := range ix.sweep[k] {
+			if di > si && !ix.used[di] {
+				if best < 0 || di < best {
+					best = di
+				}
+				break
+			}
+		}
+		if e.altKey == e.expKey {
+			break
+		}
+	}
+	if best >= 0 {
+		ix.used[best] = true
+		return si, best
 	}
 	return si, -1
 }
